@@ -23,7 +23,50 @@ fn params_of(p: u64) -> ReceiveParams {
 
 fn hexs(v: &Value) -> Vec<u8> { hex::decode(v.as_str().unwrap_or("")).unwrap_or_default() }
 
+/// An init function: same scripts, run through v1::invoke_init (fresh state, init context).
+fn run_v1_init(v: &Value) -> Value {
+    use concordium_smart_contract_engine::v1::InitResult;
+    let wasm = hexs(&v["wasm"]);
+    let param = hexs(&v["param"]);
+    let energy = v["energy"].as_u64().unwrap_or(1 << 40);
+    let ictx: v0::InitContext<Vec<u8>> = v0::InitContext { metadata: ChainMetadata { slot_time: Timestamp::from_timestamp_millis(1_700_000_000_123) }, init_origin: AccountAddress([0x44; 32]), sender_policies: Vec::new() };
+    let limit = v["proto"].as_u64().unwrap_or(7) <= 4;
+    let res = v1::invoke_init_with_metering_from_source::<_, DebugTracker>(
+        v1::InvokeFromSourceCtx { source: &wasm, amount: Amount::from_micro_ccd(0), parameter: &param, energy: InterpreterEnergy::new(energy), support_upgrade: true },
+        ictx,
+        "init_contract",
+        MemStore::default(),
+        ValidationConfig::V1,
+        CostConfigurationV1,
+        limit,
+    );
+    let trace_json = |t: &DebugTracker| -> Value {
+        Value::Array(t.host_call_trace.iter().map(|(_, c)| json!([c.host_function.to_string(), c.energy_used.energy])).collect())
+    };
+    match res {
+        Err(e) => json!({"outcome": "invalid_module", "error": e.to_string()}),
+        Ok(InitResult::Success { logs, return_value, remaining_energy, mut state, trace }) => {
+            let mut store = MemStore::default();
+            let inner = state.get_inner(&mut store);
+            let mut t = inner.lock().clone();
+            let kv = iterate_trie(&mut t, &mut MemStore::default(), &[]);
+            json!({"outcome": "success", "rv": hex::encode(&return_value), "logs": logs.iterate().map(hex::encode).collect::<Vec<_>>(), "remaining": remaining_energy.energy,
+                   "trace": trace_json(&trace), "memory_alloc": trace.memory_alloc.energy, "state": kv.iter().map(|(k, x)| json!([bytes_json(k), bytes_json(x)])).collect::<Vec<_>>()})
+        }
+        Ok(InitResult::Reject { reason, return_value, remaining_energy, trace }) => {
+            json!({"outcome": "reject", "reason": reason, "rv": hex::encode(&return_value), "remaining": remaining_energy.energy, "trace": trace_json(&trace), "state": []})
+        }
+        Ok(InitResult::Trap { error, remaining_energy, trace }) => {
+            json!({"outcome": "trap", "error": format!("{:#}", error), "remaining": remaining_energy.energy, "trace": trace_json(&trace), "memory_alloc": trace.memory_alloc.energy, "state": []})
+        }
+        Ok(InitResult::OutOfEnergy { trace }) => json!({"outcome": "out_of_energy", "remaining": 0, "trace": trace_json(&trace), "state": []}),
+    }
+}
+
 fn run_v1(v: &Value) -> Value {
+    if v["entry"] == "init" {
+        return run_v1_init(v);
+    }
     let wasm = hexs(&v["wasm"]);
     let param = hexs(&v["param"]);
     let energy = v["energy"].as_u64().unwrap_or(1 << 40);
